@@ -354,6 +354,7 @@ def build_world(
     sim_time=None,
     dt=None,
     price_l2=None,
+    pool=False,
 ) -> Optional[World]:
     """
     assemble a pre-state satisfying INV from (symbolic) parameters; None if the parameters
@@ -433,7 +434,7 @@ def build_world(
     for v in vehicles:
         sim = sso.add_vehicle_safe(sim, v).unwrap()
     if r0_present:
-        r0 = replace(R0, membership=MEMBERSHIPS[r0_memb])
+        r0 = replace(R0, membership=MEMBERSHIPS[r0_memb], allows_pooling=True if pool else False)
         if r0_zero:
             # a zero-length trip: destination == origin
             r0 = replace(r0, destination_position=r0.position,
@@ -451,6 +452,8 @@ def build_world(
         # a vehicle en route on a pooling plan is recorded on every request of the plan (DispatchPoolingTrip.enter)
         pooled = [sp.vid for sp in specs if sp.kind == 12]
         r1 = R1.assign_dispatched_vehicle(pooled[0], T0) if (pooled and r0_present and r0_disp == 1 and pooled[0] == "v0") else R1
+        if pool:
+            r1 = replace(r1, allows_pooling=True)
         sim = sso.add_request_safe(sim, r1).unwrap()
     w.sim = sim
     w.tot = totals
@@ -481,10 +484,11 @@ INSTR_NAMES = (
     "ChargeBase_b1",
     "DispatchPoolingTrip",
     "ChargeBase_b2",
+    "DispatchPoolingTrip_allowed",
 )
 N_INSTR = len(INSTR_NAMES)
 # kind the instruction leads to when accepted (DispatchStation may shortcut to ChargingStation)
-INSTR_TARGET_KIND = {0: (0,), 1: (9,), 2: (7, 3), 3: (3,), 4: (6,), 5: (8,), 6: (5,), 7: (1,), 8: (2,), 9: (7, 3), 10: (3,), 11: (8,), 12: (5,), 13: (9,), 14: (6,), 15: (12,), 16: (6,)}
+INSTR_TARGET_KIND = {0: (0,), 1: (9,), 2: (7, 3), 3: (3,), 4: (6,), 5: (8,), 6: (5,), 7: (1,), 8: (2,), 9: (7, 3), 10: (3,), 11: (8,), 12: (5,), 13: (9,), 14: (6,), 15: (12,), 16: (6,), 17: (12,)}
 
 
 def instruction(ik: int, plug: str, vid="v0"):
@@ -518,7 +522,8 @@ def instruction(ik: int, plug: str, vid="v0"):
         return DispatchTripInstruction(vid, "r_missing")
     if ik == 14:
         return ChargeBaseInstruction(vid, "b1", plug)
-    if ik == 15:
+    if ik in (15, 17):
+        # (17: the same plan in a world whose requests allow pooling -- the only way the instruction can be accepted)
         # a plan over two requests: r0 (membership varies with the scenario) and r1 (always public)
         return DispatchPoolingTripInstruction(
             vid, (("r0", TripPhase.PICKUP), ("r1", TripPhase.PICKUP), ("r0", TripPhase.DROPOFF), ("r1", TripPhase.DROPOFF))
